@@ -916,7 +916,7 @@ type c08Result struct {
 	ID      int      `json:"id"`
 	Outs    []string `json:"outs"`
 	Msgs    []string `json:"msgs,omitempty"`
-	Skipped bool     `json:"-"` // not run: too many workers died before (see c08MaxCrashes)
+	Skipped bool     `json:"-"`  // not run: too many workers died before (see c08MaxCrashes)
 	Us      int64    `json:"us"` // time spent in the worker (evidence only)
 }
 
